@@ -112,7 +112,7 @@ def domains(scratch=None):
         STR: ["", "a", "ab", "é\n"],
         BYTES: [b"", b"a\xff", b"a"],
         LIST: [[], [1], [1, 2], [2, 1], [1, 1], (1, 2), (1, 2, 2), [2, 1, 1]],
-        DICT: [{}, {"x": 1}, {"x": 1, "y": 2}, {"y": 1}, {"x": 2}, {"x": 1, "y": 0}, {"z": None}, {"x": 0}],
+        DICT: [{}, {"x": 1}, {"x": 1, "y": 2}, {"y": 1}, {"x": 2}, {"x": 1, "y": 0}, {"z": None}, {"x": 0}, {1: 0, "y": 0, "x": 1}],
         OBJ: [Obj(a=1, b=2), Obj(a=1, b=1), Obj(a=0, b=2)],
         EXC: [_exc_info(ValueError("a")), _exc_info(KeyError("b")), _exc_info(KeyboardInterrupt())],
         CALL: [_ret1, _raise_value, _raise_key, _warn_dep, _warn_two, _raise_kbi, _raise_abort],
@@ -186,6 +186,7 @@ def leaves(scratch=None):
     add(STR, "EndsWith('b')", lambda: M.EndsWith("b"), lambda v: v.endswith("b"))
     add(STR, "Contains('a')", lambda: M.Contains("a"), lambda v: "a" in v)
     add(STR, "MatchesRegex('a+$')", lambda: M.MatchesRegex("a+$"), lambda v: re.match("a+$", v) is not None)
+    add(STR, "MatchesRegex(re.compile('a+$'))", lambda: M.MatchesRegex(re.compile("a+$")), lambda v: re.match("a+$", v) is not None)
     add(STR, "MatchesRegex('A', re.I)", lambda: M.MatchesRegex("A", re.I), lambda v: re.match("A", v, re.I) is not None)
     add(STR, "HasLength(1)", lambda: M.HasLength(1), lambda v: len(v) == 1)
     add(STR, "DocTestMatches('a...')", lambda: DocTestMatches("a...", 8), lambda v: v.startswith("a"))
@@ -210,8 +211,8 @@ def leaves(scratch=None):
     add(LIST, "MatchesAll()", lambda: M.MatchesAll(), lambda v: True)
     add(LIST, "MatchesPredicate(is_pair)", lambda: M.MatchesPredicate(is_pair, "%s is not a pair"), lambda v: len(v) == 2)
     # dicts
-    add(DICT, "KeysEqual('x')", lambda: M.KeysEqual("x"), lambda v: sorted(v) == ["x"])
-    add(DICT, "KeysEqual({'x':0,'y':0})", lambda: M.KeysEqual({"x": 0, "y": 0}), lambda v: sorted(v) == ["x", "y"])
+    add(DICT, "KeysEqual('x')", lambda: M.KeysEqual("x"), lambda v: set(v) == {"x"})
+    add(DICT, "KeysEqual({'x':0,'y':0})", lambda: M.KeysEqual({"x": 0, "y": 0}), lambda v: set(v) == {"x", "y"})
     add(DICT, "Equals({})", lambda: M.Equals({}), lambda v: v == {})
     add(DICT, "HasLength(1)", lambda: M.HasLength(1), lambda v: len(v) == 1)
     # objects
@@ -304,7 +305,7 @@ def combinators(children, scratch=None, first_only_variants=True):
         yield mk("AfterPreprocessing(len, %s, annotate=False)" % a.name, lambda a=a: M.AfterPreprocessing(len, a.make(), False), lambda v, a=a: a.sem(len(v)), STR, [a])
         yield mk("AfterPreprocessing(get_a, %s)" % a.name, lambda a=a: M.AfterPreprocessing(get_a, a.make()), lambda v, a=a: a.sem(v.a), OBJ, [a])
         yield mk("MatchesStructure(a=%s)" % a.name, lambda a=a: M.MatchesStructure(a=a.make()), lambda v, a=a: a.sem(v.a), OBJ, [a])
-        yield mk("MatchesDict({'x': %s})" % a.name, lambda a=a: M.MatchesDict({"x": a.make()}), lambda v, a=a: sorted(v) == ["x"] and a.sem(v["x"]), DICT, [a])
+        yield mk("MatchesDict({'x': %s})" % a.name, lambda a=a: M.MatchesDict({"x": a.make()}), lambda v, a=a: set(v) == {"x"} and a.sem(v["x"]), DICT, [a])
         yield mk("ContainsDict({'x': %s})" % a.name, lambda a=a: M.ContainsDict({"x": a.make()}), lambda v, a=a: "x" in v and a.sem(v["x"]), DICT, [a])
         yield mk("ContainedByDict({'x': %s})" % a.name, lambda a=a: M.ContainedByDict({"x": a.make()}), lambda v, a=a: set(v) <= {"x"} and ("x" not in v or a.sem(v["x"])), DICT, [a])
         yield mk("MatchesListwise([%s])" % a.name, lambda a=a: M.MatchesListwise([a.make()]), lambda v, a=a: len(v) == 1 and a.sem(v[0]), LIST, [a])
@@ -313,7 +314,7 @@ def combinators(children, scratch=None, first_only_variants=True):
             yield mk("MatchesListwise([%s, %s], first_only=True)" % (b.name, a.name), lambda a=a, b=b: M.MatchesListwise([b.make(), a.make()], first_only=True), lambda v, a=a, b=b: len(v) == 2 and b.sem(v[0]) and a.sem(v[1]), LIST, [a, b])
             yield mk("MatchesSetwise(%s, %s)" % (a.name, b.name), lambda a=a, b=b: M.MatchesSetwise(a.make(), b.make()), lambda v, a=a, b=b: _setwise([a, b], list(v)), LIST, [a, b])
             yield mk("MatchesStructure(a=%s, b=%s)" % (a.name, b.name), lambda a=a, b=b: M.MatchesStructure(a=a.make(), b=b.make()), lambda v, a=a, b=b: a.sem(v.a) and b.sem(v.b), OBJ, [a, b])
-            yield mk("MatchesDict({'x': %s, 'y': %s})" % (a.name, b.name), lambda a=a, b=b: M.MatchesDict({"x": a.make(), "y": b.make()}), lambda v, a=a, b=b: sorted(v) == ["x", "y"] and a.sem(v["x"]) and b.sem(v["y"]), DICT, [a, b])
+            yield mk("MatchesDict({'x': %s, 'y': %s})" % (a.name, b.name), lambda a=a, b=b: M.MatchesDict({"x": a.make(), "y": b.make()}), lambda v, a=a, b=b: set(v) == {"x", "y"} and a.sem(v["x"]) and b.sem(v["y"]), DICT, [a, b])
             yield mk("ContainsDict({'x': %s, 'y': %s})" % (a.name, b.name), lambda a=a, b=b: M.ContainsDict({"x": a.make(), "y": b.make()}), lambda v, a=a, b=b: "x" in v and "y" in v and a.sem(v["x"]) and b.sem(v["y"]), DICT, [a, b])
             yield mk("ContainedByDict({'x': %s, 'y': %s})" % (a.name, b.name), lambda a=a, b=b: M.ContainedByDict({"x": a.make(), "y": b.make()}), lambda v, a=a, b=b: set(v) <= {"x", "y"} and all({"x": a, "y": b}[k].sem(v[k]) for k in v), DICT, [a, b])
     lists = children.get(LIST, {"new": [], "all": []})
